@@ -174,6 +174,56 @@ def TreeState.reopen (t : TreeState K) : Option (TreeState K) :=
     { t with hist := [{ active := 0, sealed := [], version := sv.version, seqno := 0 }],
              mems := [{ id := 0, entries := [] }] })
 
+
+/-! ### operations as data: histories are lists of `Op` -/
+
+/-- one state-changing call of the API, with its observed decisions -/
+inductive Op (K : Type) where
+  | write (es : List (Entry K))
+  | rotate (newMem : Nat)
+  | flush (wm : Nat) (newMem : Nat) (cuts : List (Nat × Nat))
+  | merge (ids : List Nat) (dest : Nat) (wm : Nat) (f : Entry K → Verdict) (cuts : List (Nat × Nat))
+  | move (ids : List Nat) (dest : Nat) (wm : Nat)
+  | drop (ids : List Nat) (wm : Nat)
+  | clear (newMem : Nat)
+  | ingest (newMem : Nat) (fcuts : List (Nat × Nat)) (items : List (Entry K)) (cuts : List (Nat × Nat))
+  | reopen
+
+/-- the GC watermark an operation passes to `maintenance` -/
+def Op.watermark : Op K → Nat
+  | .flush wm _ _ => wm
+  | .merge _ _ wm _ _ => wm
+  | .move _ _ wm => wm
+  | .drop _ wm => wm
+  | _ => 0
+
+/-- a memtable id is fresh if no memtable of the state carries it (ids come from a counter in the real code) -/
+def TreeState.freshMem (t : TreeState K) (id : Nat) : Bool := !(t.mems.any (fun m => m.id == id))
+
+/-- `none` = the model rejects the operation (a precondition or an observed decision is inconsistent) -/
+def TreeState.applyOp (t : TreeState K) : Op K → Option (TreeState K)
+  | .write es => t.write es
+  | .rotate m => if t.freshMem m then some (t.rotate m) else none
+  | .flush wm m cuts => if t.freshMem m then (t.rotate m).flushSealed wm cuts else none
+  | .merge ids dest wm f cuts => t.mergeCommit ids dest wm f cuts
+  | .move ids dest wm => t.moveCommit ids dest wm
+  | .drop ids wm => t.dropCommit ids wm
+  | .clear m => if t.freshMem m then t.clear m else none
+  | .ingest m fcuts items cuts =>
+    if t.freshMem m then
+      match (t.rotate m).flushSealed 0 fcuts false with
+      | some t1 => t1.ingestCommit items cuts
+      | none => none
+    else none
+  | .reopen => t.reopen
+
+/-- run a history -/
+def TreeState.run (t : TreeState K) : List (Op K) → Option (TreeState K)
+  | [] => some t
+  | op :: ops => match t.applyOp op with
+    | some t' => t'.run ops
+    | none => none
+
 /-! ### reads -/
 
 /-- `Table::get` + `point_read` at table granularity (effective seqnos) -/
